@@ -6,6 +6,35 @@ import sys
 import traceback
 
 
+def replay_file(pid, mod, args):
+    """re-establish a recorded violation on the current tree: a recorded concrete decoder input is run through the real
+    decoder and compared with the reference semantics again; otherwise the check is re-run and the recorded obligation is
+    looked up.  exit 1 = the violation is still there, 0 = it is gone"""
+    import json
+    import subprocess
+
+    rec = json.load(open(args.replay))
+    print(f"replay of {rec.get('obligation')} ({rec.get('site')})")
+    rp = rec.get("replay") or {}
+    inp = rp.get("input") if isinstance(rp, dict) else None
+    if isinstance(inp, dict) and "hex" in inp and "tpm_type" in inp:
+        sys.path.insert(0, os.path.join(os.path.dirname(os.path.dirname(os.path.abspath(__file__))), "spec"))
+        import crosscheck as X
+
+        r = X.compare(inp["tpm_type"], bytes.fromhex(inp["hex"]), inp.get("command_code"), bool(inp.get("parameter_encryption")), inp.get("mode", "strict"))
+        print(f"input {inp['tpm_type']} {inp['hex']} mode={inp.get('mode', 'strict')}: " + ("real decoder deviates from the reference semantics: " + json.dumps(r, default=str)[:600] if r else "real decoder agrees with the reference semantics"))
+        if r:
+            print(f"VIOLATION property={pid} replay={os.path.abspath(args.replay)}")
+            return 1
+        return 0
+    # no concrete decoder input recorded: run the check again and look the obligation up
+    out = subprocess.run([sys.executable, "-m", "checks.main", pid, "--tier", args.tier], capture_output=True, text=True, env=dict(os.environ)).stdout
+    name = "".join(c if c.isalnum() or c in "-_." else "_" for c in (rec.get("obligation") or ""))[:150]
+    still = [l for l in out.splitlines() if l.startswith("VIOLATION") and name in l]
+    print("\n".join(still) if still else "the recorded obligation is discharged on the current tree")
+    return 1 if still else 0
+
+
 def main():
     ap = argparse.ArgumentParser()
     ap.add_argument("pid")
@@ -26,7 +55,7 @@ def main():
         return 3
     try:
         if args.replay:
-            return mod.replay_file(args.replay)
+            return replay_file(pid, mod, args)
         return mod.run(args.tier, seed, only=args.only)
     except Exception:
         print(f"CHECKER-ERROR property={pid}\n{traceback.format_exc()}")
